@@ -51,7 +51,7 @@ CFG = {
                  "C09_views_canonical", "C09_views_only_used", "C09_same_bytes", "C09_same_bytes_history", "C09_calc_preimage",
                  "C09_aux", "C09_stale_hash_not_detected", "C09_calc_noop_keeps_hash", "C09_wf_invariant",
                  "C09_slices_sound", "C09_same_bytes_history_bytes", "C09_same_bytes_additive", "C09_aux_history",
-                 "C09_aux_format_flag", "C09_aux_wire_reencode", "C09_tx_view_sound", "C09_judge_accepts_model", "C09_preimage_spec_with", "C09_stale_lang_refuted", "C09_calc_preimage_gen", "C09_entries_langs_model", "C09_same_bytes_entries"],
+                 "C09_aux_format_flag", "C09_aux_wire_reencode", "C09_tx_view_sound", "C09_judge_accepts_model", "C09_preimage_spec_with", "C09_stale_lang_refuted", "C09_calc_preimage_gen", "C09_entries_langs_model", "C09_same_bytes_entries", "C09_noop_calc_refuted"],
     "allowed_axioms": [],
     "compare": _compare,
     "nontrivial": _nontrivial,
@@ -65,7 +65,7 @@ CFG = {
             "extra datums, a collateral witness repeating a spend redeemer, set in every order, calc_script_data_hash with used + unused + missing "
             "languages, items added after calc, set/remove hash, re-calc, calc on an empty builder, missing collateral, auxiliary data in the three "
             "wire forms via set_auxiliary_data (constructed and decoded from bytes) / set_metadata / add_metadatum / add_json_metadatum* / remove, the same content "
-            "re-set with the flipped format flag; native scripts per sub-builder; stale Plutus witnesses (input re-added as a key input); key / bootstrap witnesses in "
+            "re-set with the flipped format flag; replacement histories (calc, every Plutus-bearing sub-builder replaced by one without returned witnesses, calc again); native scripts per sub-builder; stale Plutus witnesses (input re-added as a key input); key / bootstrap witnesses in "
             "helper witness sets; balanced with add_change_if_needed and built with build_tx. "
             "non-trivial = distinct case line whose model result carries a hash",
     "trusted_base": [
@@ -82,6 +82,8 @@ CFG = {
         "TransactionBuilder scenarios contain native scripts in every sub-builder that takes them; key / bootstrap witnesses appear only in the helper cases (get_witness_set never sets them)",
         "fees stay below 2^32 in builder scenarios (the 9-byte fee field is property C06)",
         "fixed classes (no longer excluded from anything while the switches are false): C09-set-bytes-length, C09-empty-datums, C09-stale-input-language",
+        "known class C09-noop-calc-keeps-hash (known_noop_calc: the last calc was a no-op on a builder without script items holding a hash stored by an earlier calc): "
+        "the property is violated there (C09_noop_calc_refuted); the check prints KNOWN-FINDING and keeps exit 0; /repo frozen, candidate repair in notes/design/C09.md",
         "reachable C10 builder states have duplicate-free withdrawal keys (PointersProofs.wd_refine); native scripts are not in the C10 model (given per sub-builder)",
     ],
     "explanation": "Theorems quantify over all byte strings, identity classes, cost-model tables and operation histories; the correspondence run ties the "
